@@ -78,3 +78,45 @@ def bits_of(e, x, n, guard="true"):
     # (a valid theorem with its premises kept inside the formula; only a hint for the solver)
     e.radix_hint(x, bs)
     return bs
+
+
+def bv_of_bits(bits):
+    """bit-vector whose bit i is (bits[i] = 1); little endian list -> concat msb..lsb"""
+    parts = [f"(ite (= {A(b)} 1) #b1 #b0)" for b in reversed(bits)]
+    return "(concat " + " ".join(parts) + ")" if len(parts) > 1 else parts[0]
+
+
+def bvlit(v, n):
+    return "#b" + format(v, f"0{n}b")
+
+
+def geq_chain(e, bits, bound):
+    """Returns a 0/1 atom G with G = [ (integer represented by bits, little endian) >= bound ], stated as an
+    unsigned bit-vector comparison, after handing the solver the bit-serial characterisation:
+        G_i = bvuge(x[i:0], bound[i:0])                       (each G_i DEFINED in the main query)
+        G_i = (b_i and G_{i-1}) if bit i of bound is set else (b_i or G_{i-1})   (step lemma)
+    The step lemma is generic in (v, b) and is registered as a side obligation the solver must prove
+    valid before it is used."""
+    n = len(bits)
+    if bound >= (1 << n):
+        return 0
+    if bound == 0:
+        return 1
+    G = []
+    for i in range(n):
+        Bi = bound % (1 << (i + 1))
+        g = e.fresh("sg", 0, 1)
+        e.lines.append(f"(assert (= {g} (ite (bvuge {bv_of_bits(bits[:i + 1])} {bvlit(Bi, i + 1)}) 1 0)))")
+        G.append(g)
+        if i > 0:
+            prev = G[i - 1]
+            bi = A(bits[i])
+            if (bound >> i) & 1:
+                e.lines.append(f"(assert (= {g} (ite (and (= {bi} 1) (= {prev} 1)) 1 0)))")
+            else:
+                e.lines.append(f"(assert (= {g} (ite (or (= {bi} 1) (= {prev} 1)) 1 0)))")
+            Bp = bound % (1 << i)
+            body = (f"(= (bvuge (concat b v) {bvlit(Bi, i + 1)}) " +
+                    (f"(and (= b #b1) (bvuge v {bvlit(Bp, i)}))" if (bound >> i) & 1 else f"(or (= b #b1) (bvuge v {bvlit(Bp, i)}))") + ")")
+            e.side.append((f"geq-step-{i}", [f"(declare-const v (_ BitVec {i}))", "(declare-const b (_ BitVec 1))"], body))
+    return G[-1]
